@@ -7,7 +7,7 @@ SX = "explicit-state model checking: BFS over operation sequences on the real st
 SC = "stateless model checking: controlled scheduler + DFS over all thread interleavings within a preemption bound on the real code"
 EN = "bounded-exhaustive enumeration of a finite input grammar against an independent oracle"
 checks = {
- "C01": (MC, "SX", SX, "all operation sequences up to depth 3 (quick) / 4 (thorough) over 2 buckets x 2 keys from 3 seed states on SQL, FS and the deep stack (thorough: all ten stacks); full API-visible state compared with the reference model after every transition", "reference model mc/sx/model.go; SQLite; finite body alphabet"),
+ "C01": (MC, "SX", SX, "all operation sequences up to depth 3 (quick) / 4 (thorough) over 2 buckets x 2 keys from 3 seed states (plus part-sharing histories, and the same histories with one injected failure per step: a failed operation is not an acknowledged write) on SQL, FS and the deep stack (thorough: all ten stacks); full API-visible state compared with the reference model after every transition", "reference model mc/sx/model.go; SQLite; finite body alphabet"),
  "C02": (MC, "SX", SX, "all versioning histories (Enable/Suspend, put, delete, delete-by-version-id of every live version; rich alphabet adds append, multipart, copy-by-version) up to depth 5/8 on one key and depth 3/5 on two keys; current version, version list and per-version content compared with the model", "model keeps write order explicitly; 1 s virtual time between operations"),
  "C03": (FE, "SX+FAULT", "fault enumeration: every operation of every explored history re-run once per fault site (part-store calls, write-transaction begin, commit through the hook and as a failure of the real sql commit, body reads) plus all semantic failures of the alphabet; state before == state after", "every operation of the histories (depth 1-2 with faults, depth 2-3 semantic failures) x every fault site it touches; API observation and database dump must be unchanged after a failed operation", "SQL statement failures inside a transaction are represented by the commit fault; TooManyParts and HTTP-layer limits not exercised"),
  "C04": (MC, "SX", SX, "write histories over bodies (0 B .. 2.5 MiB), part splittings incl. empty parts, both checksum types, supplied good/bad checksums for all six algorithms; every ETag/checksum of every write result and every version compared with stdlib digests of the model's bytes", "digests recomputed by the Go standard library"),
